@@ -140,6 +140,7 @@ type Verdict struct {
 	Violations    []*Obl
 	Known         map[*Obl]*Finding
 	MissingClaims []string
+	ClaimCounts   []map[string]interface{}
 	Lines         []string
 	ExitCode      int
 }
@@ -177,6 +178,7 @@ func Decide(env *Env, cf *ClaimsFile, res *Result, replay func(o *Obl)) *Verdict
 		if min < 1 {
 			min = 1
 		}
+		v.ClaimCounts = append(v.ClaimCounts, map[string]interface{}{"match": c.Match, "min": c.Min, "matched": counts[i]})
 		if counts[i] < min {
 			v.MissingClaims = append(v.MissingClaims, fmt.Sprintf("%s (have %d, need %d)", c.Match, counts[i], min))
 		}
@@ -342,6 +344,7 @@ func WriteEvidence(env *Env, cf *ClaimsFile, res *Result, v *Verdict, wall time.
 		"undecided":                cf.Undecided,
 		"known_findings":           known,
 		"missing_claims":           v.MissingClaims,
+		"claim_counts":             v.ClaimCounts,
 		"evaluations":              nClaimed,
 		"distinct_nontrivial":      nClaimed,
 		"rule":                     "one evaluation = one claimed proof obligation generated from the SSA of /repo's working tree (or one bounded-tier query); all are distinct by name; see obligations/discharged for the split",
